@@ -853,7 +853,14 @@ Print Assumptions C10_ws_cycle_guard.
    variable, parameter or own / inherited field whose declared type is native, an indexed class, `refto`
    one, or `listof`): the answer is the all-declarations look-up on the chain of the operand's class,
    to which C10_ws_entity_chain_refines / C10_ws_member apply.  PARTIAL: that typed_entity is
-   Scoping.static_class of the one-element prefix is tied to the code by the differential run only. *)
+   Scoping.static_class of the one-element prefix (head_etype) is tied to the code by the differential run only.
+   What a proof needs beyond WsTreeProofs: (1) the declaration found at position i of a tree table is the
+   member / variable with tag i of the entity (member_by_tag / var_by_tag against decl_node's search by
+   range, name and kind), and its decl_tyref is what declared_entity reads; (2) Scoping's tables DURING the
+   annotation of method m (scope_chain_during: members_upto) against the final tables plus typed_entity's
+   side condition `every own declaration of the name ends before the operand` -- this relates source
+   positions to declaration order and needs the sibling-order facts of C08 (RangeTop) as a hypothesis;
+   (3) a class-kind symbol other than `self` in a regular root table is the header symbol (a_name = cls). *)
 Theorem C10_ws_typed_member_case :
   forall ws a stem t p i enc pi q up full lft,
     distinct_stems ws = true -> nth_error ws a = Some (stem, t) -> flat_methods t = true ->
